@@ -60,6 +60,15 @@ def parseLeaf (j : Json) : Option (Op C) := do
     let n ← fNat? j "n"
     let da := carr (← fFloats? j "dr") (← fFloats? j "di")
     some (Op.diag n (vecOf da))
+  | "jac" =>
+    -- linop.jacobian: eval = measured push-forward, adj = conjFun of the measured RAW pull-back of jax.vjp
+    let m ← fNat? j "m"
+    let n ← fNat? j "n"
+    let eP := matOf n (carr (← fFloats? j "ePr") (← fFloats? j "ePi"))
+    let eQ := matOf n (carr (← fFloats? j "eQr") (← fFloats? j "eQi"))
+    let gP := matOf m (carr (← fFloats? j "aPr") (← fFloats? j "aPi"))
+    let gQ := matOf m (carr (← fFloats? j "aQr") (← fFloats? j "aQi"))
+    some (Op.jacobian m n (Op.pqMap n eP eQ) (Op.pqMap m gP gQ))
   | "imap" =>
     -- index map read off the real operator on one probe vector; `gather`: eval reads along phi, `scatter`: eval adds along phi
     let n ← fNat? j "n"
